@@ -92,7 +92,10 @@ func (g *c03gen) try(depth int) types.MalType {
 		for i, n := 0, g.r.Intn(2); i < n; i++ {
 			h = append(h, g.marker())
 		}
-		switch g.r.Intn(6) {
+		switch g.r.Intn(7) {
+		case 6: // a handler WITHOUT body forms still handles: the try yields nil (alone it is a syntax error, with a finally it is accepted)
+			g.hist["handler-empty"]++
+			h = []types.MalType{S("catch"), S("e")}
 		case 0:
 			g.hist["handler-returns-e"]++
 			h = append(h, S("e"))
@@ -120,7 +123,7 @@ func (g *c03gen) try(depth int) types.MalType {
 	if g.r.Intn(3) > 0 {
 		g.hist["finally"]++
 		f := []types.MalType{S("finally")}
-		for i, n := 0, 1+g.r.Intn(2); i < n; i++ {
+		for i, n := 0, g.r.Intn(3); i < n; i++ { // 0 forms: (finally)
 			f = append(f, g.marker())
 		}
 		if g.r.Intn(6) == 0 {
@@ -144,6 +147,8 @@ func runC03(tier string, seed uint64, rep *Report) {
 	expect(rep, "catch variable is not visible in finally", Call("do", Call("def", S("e"), 99), Call("try", thr(1), Call("catch", S("e"), 5), Call("finally", Call("trace!", S("e"))))), ev(5, 99), "tmpl")
 	expect(rep, "catch variable is not visible after the try", Call("do", Call("def", S("e"), 99), Call("try", thr(1), Call("catch", S("e"), 5)), S("e")), ev(99), "tmpl")
 	expect(rep, "finally runs once on the normal path", Call("try", Call("trace!", 1), Call("finally", Call("trace!", 2))), ev(1, 1, 2), "tmpl")
+	expect(rep, "a handler without body forms still handles the error (nil), the outer handler does not run",
+		Call("try", Call("try", thr(1), Call("catch", S("e")), Call("finally", Call("trace!", 3))), Call("catch", S("e"), Call("trace!", Kw("outer")))), ev(nil, 3), "tmpl")
 	expect(rep, "finally runs once on the caught path, after the handler", Call("try", thr(1), Call("catch", S("e"), Call("trace!", 2)), Call("finally", Call("trace!", 3))), ev(2, 2, 3), "tmpl")
 	expect(rep, "finally does not change the result", Call("try", 7, Call("finally", 8)), ev(7), "tmpl")
 	expect(rep, "finally errors are ignored", Call("try", 7, Call("finally", thr(1))), ev(7), "tmpl")
